@@ -38,6 +38,12 @@ Theorem C01_sequence : forall ms sch, Forall valid_msg ms -> pos_sched sch ->
 Proof. exact read_all_sequence. Qed.
 Print Assumptions C01_sequence.
 
+(* self-delimiting at stream level: a byte stream splits into valid frames in at most one way *)
+Theorem C01_stream_injective : forall ms1 ms2, Forall valid_msg ms1 -> Forall valid_msg ms2 ->
+  concat (map enc_msg ms1) = concat (map enc_msg ms2) -> ms1 = ms2.
+Proof. exact enc_stream_injective. Qed.
+Print Assumptions C01_stream_injective.
+
 (* a refused header costs exactly the 28 header bytes: the payload is never touched *)
 Theorem C01_refuse_before_payload : forall b rest sch,
   List.length b = 28%nat -> header_refused b -> pos_sched sch ->
